@@ -272,9 +272,29 @@ func Generate(r *rand.Rand, profile string) *Scenario {
 		}
 		running := 0
 		var podIdx []int
+		// optional sub-groups: two flat pod sets splitting the job's pods
+		sizeA := 0
+		if t.size >= 2 && shape == 0 && (profile == "mixed" || profile == "full" || profile == "closed") && chance(0.3) {
+			sizeA = (t.size + 1) / 2
+			minA := 1 + r.Intn(sizeA)
+			minB := 1 + r.Intn(t.size-sizeA)
+			sc.Jobs[j].Subs = []Sub{{Name: "sa", Min: minA}, {Name: "sb", Min: minB}}
+			sc.Jobs[j].Min = minA + minB
+			t.min = minA + minB
+			if runFrac > 0.45 {
+				runFrac = 1 // pod-set jobs start either fully running or fully pending
+			}
+		}
 		for k := 0; k < t.size; k++ {
 			p := Pod{Name: fmt.Sprintf("j%d-p%d", j+1, k+1), Job: j + 1, Cpu: t.cpu, Mem: t.mem, Gpu: t.gpu, Frac: t.frac, GpuMem: t.gpuMem,
 				Devs: t.devs, Phase: "P"}
+			if sizeA > 0 {
+				if k < sizeA {
+					p.Sub = 1
+				} else {
+					p.Sub = 2
+				}
+			}
 			if profile == "constr" {
 				decorate(r, &p, sc)
 			}
@@ -305,7 +325,7 @@ func Generate(r *rand.Rand, profile string) *Scenario {
 				}
 			}
 		}
-		if running > 0 && running < t.min {
+		if running > 0 && (running < t.min || (sizeA > 0 && running < t.size)) {
 			// cannot leave a gang partially running in the initial state: roll the job back to pending
 			// (capacity bookkeeping stays conservative)
 			for _, pi := range podIdx {
